@@ -10,6 +10,9 @@ in a computed value), lifted to all inputs of the model:
   `var()` solved or failed);
 * `style_length_keys_absolute`: every chain of elements, any depth of inheritance, `AnonymousStyle`
   included — the link from the function-level model to the document-level model.
+* `length_tuples_absolute`, `border_image_width_absolute`, `track_breadth_absolute`: the same for the
+  items of `length_tuple`, `length_or_percentage_tuple` / `border_radius`, `border_image_width` /
+  `mask_border_width` and `_compute_track_breadth`, for all inputs.
 `leftover_units_handled` is stated on the generated `LENGTHS_TO_PIXELS`: removing a unit from the
 table in the source breaks it.
 -/
@@ -257,4 +260,187 @@ example :
     (styleAt (1 / 2) (1 / 2) [mid, root] "width").toOption = some (.dim 60 "px") ∧
     (styleAt (1 / 2) (1 / 2) [leaf, mid, root] "width").toOption = some (.dim (4 / 3) "px") := by
   decide +kernel
+/-! ## the tuple-valued functions, the grid track breadth and `border-image-width` -/
+
+/-- One level down: every item of a tuple value is absolute (a flat tuple of strings has no lengths). -/
+def absoluteItems (v : Val) : Bool :=
+  match v with
+  | .tup l => l.all absoluteTop
+  | v => absoluteTop v
+
+theorem mapLength_absolute (env : Env) (po : Bool) :
+    ∀ (l r : List Val), mapLength env po l = .ok r → ∀ x ∈ r, absoluteTop x = true := by
+  intro l
+  induction l with
+  | nil => intro r h x hx; simp [mapLength] at h; subst h; simp at hx
+  | cons v rest ih =>
+    intro r h x hx
+    simp only [mapLength, bind, Except.bind] at h
+    cases hv : length env v none po with
+    | error err => simp [hv] at h
+    | ok hd =>
+      cases ht : mapLength env po rest with
+      | error err => simp [hv, ht] at h
+      | ok tl =>
+        simp [hv, ht, pure, Except.pure] at h
+        subst h
+        rcases List.mem_cons.mp hx with rfl | hx'
+        · exact length_absolute_result env v none po _ hv
+        · exact ih tl ht x hx'
+
+theorem mkTuple_absoluteItems (l : List Val) (h : ∀ x ∈ l, absoluteTop x = true) :
+    absoluteItems (mkTuple l) = true := by
+  unfold mkTuple
+  split
+  · rfl
+  · simp only [absoluteItems, List.all_eq_true]; exact h
+
+/-- `length_tuple` (`border-spacing`, `size`, `clip`), `length_or_percentage_tuple` (`transform-origin`)
+and `border_radius`: no item of the computed tuple keeps a relative or non-px unit. -/
+theorem length_tuples_absolute (env : Env) (values r : Val) :
+    (lengthTuple env values = .ok r → absoluteItems r = true) ∧
+    (lengthOrPercentageTuple env values = .ok r → absoluteItems r = true) := by
+  constructor
+  · intro h
+    unfold lengthTuple at h
+    cases he : elems "length_tuple" values with
+    | error err => simp [he, bind, Except.bind] at h
+    | ok l =>
+      cases hm : mapLength env true l with
+      | error err => simp [he, hm, bind, Except.bind] at h
+      | ok items =>
+        simp [he, hm, bind, Except.bind, pure, Except.pure] at h
+        subst h
+        exact mkTuple_absoluteItems items (mapLength_absolute env true l items hm)
+  · intro h
+    unfold lengthOrPercentageTuple at h
+    cases he : elems "length_or_percentage_tuple" values with
+    | error err => simp [he, bind, Except.bind] at h
+    | ok l =>
+      cases hm : mapLength env false l with
+      | error err => simp [he, hm, bind, Except.bind] at h
+      | ok items =>
+        simp [he, hm, bind, Except.bind, pure, Except.pure] at h
+        subst h
+        exact mkTuple_absoluteItems items (mapLength_absolute env false l items hm)
+
+/-- `_compute_track_breadth` (grid track sizes): what it returns is absolute (`fr` is not a length). -/
+theorem track_breadth_absolute (env : Env) (value r : Val)
+    (h : computeTrackBreadth env value = .ok (some r)) : absoluteTop r = true := by
+  unfold computeTrackBreadth at h
+  cases value with
+  | kw s =>
+    simp only at h
+    split at h
+    · simp at h; subst h; rfl
+    · simp at h
+  | dim q u =>
+    simp only at h
+    split at h
+    · rename_i hu
+      simp at h; subst h
+      have : u = "fr" := by simpa using hu
+      subst this
+      show (!(leftoverUnits.contains "fr")) = true
+      decide
+    · cases hl : length env (.dim q u) with
+      | error err => simp [hl, Except.map] at h
+      | ok x =>
+        simp [hl, Except.map] at h
+        subst h
+        exact length_absolute_result env _ none false _ hl
+  | num q => simp at h
+  | strs l => simp at h
+  | tagged t q => simp at h
+  | null => simp at h
+  | tup l => simp at h
+
+/-- `border_image_width` / `mask_border_width` (the repaired finding, for all inputs): every item of
+the result is a number, `auto`, a percentage or a px length. -/
+theorem width_items_absolute (env : Env) :
+    ∀ (l r : List Val), widthItems env l = .ok r → ∀ x ∈ r, absoluteTop x = true := by
+  intro l
+  induction l with
+  | nil => intro r h x hx; simp [widthItems] at h; subst h; simp at hx
+  | cons v rest ih =>
+    intro r h x hx
+    -- the item computed for `v`
+    have hitem : ∀ item tl, widthItems env rest = .ok tl → r = item :: tl → absoluteTop item = true →
+        absoluteTop x = true := by
+      intro item tl ht hr hi
+      subst hr
+      rcases List.mem_cons.mp hx with rfl | hx'
+      · exact hi
+      · exact ih tl ht x hx'
+    simp only [widthItems, bind, Except.bind] at h
+    by_cases ha : v.isKw "auto" = true
+    · simp only [ha, if_true, pure, Except.pure] at h
+      cases ht : widthItems env rest with
+      | error err => simp [ht] at h
+      | ok tl =>
+        simp [ht] at h
+        refine hitem v tl ht h.symm ?_
+        cases v <;> simp [Val.isKw] at ha <;> rfl
+    · simp only [ha, Bool.false_eq_true, if_false] at h
+      cases hn : numberUnit "border_image_width" v with
+      | error err => simp [hn] at h
+      | ok p =>
+        obtain ⟨q, unit⟩ := p
+        cases unit with
+        | none =>
+          cases ht : widthItems env rest with
+          | error err => simp [hn, ht, pure, Except.pure] at h
+          | ok tl =>
+            simp [hn, ht, pure, Except.pure] at h
+            exact hitem (.num q) tl ht h.symm rfl
+        | some u =>
+          cases hl : length env v with
+          | error err => simp [hn, hl] at h
+          | ok item =>
+            cases ht : widthItems env rest with
+            | error err => simp [hn, hl, ht] at h
+            | ok tl =>
+              simp [hn, hl, ht, pure, Except.pure] at h
+              exact hitem item tl ht h.symm (length_absolute_result env v none false _ hl)
+
+private theorem padFour_mem (l : List Val) (x : Val) (h : x ∈ padFour l) : x ∈ l := by
+  unfold padFour at h
+  split at h
+  · simp_all
+  · simp only [List.mem_cons, List.mem_nil_iff, or_false] at h ⊢
+    rcases h with h | h | h | h <;> simp [h]
+  · simp only [List.mem_cons, List.mem_nil_iff, or_false] at h ⊢
+    rcases h with h | h | h | h <;> simp [h]
+  · exact h
+
+/-- `border_image_width(style, name, values)`: no side of the result keeps a relative or non-px unit. -/
+theorem border_image_width_absolute (env : Env) (values r : Val)
+    (h : borderImageWidth env values = .ok r) : absoluteItems r = true := by
+  unfold borderImageWidth at h
+  cases he : elems "border_image_width" values with
+  | error err => simp [he, bind, Except.bind] at h
+  | ok l =>
+    cases hm : widthItems env l with
+    | error err => simp [he, hm, bind, Except.bind] at h
+    | ok items =>
+      simp [he, hm, bind, Except.bind, pure, Except.pure] at h
+      subst h
+      exact mkTuple_absoluteItems _ (fun x hx => width_items_absolute env l items hm x (padFour_mem items x hx))
+
+
+private def exEnv : Env :=
+  { fontSize := fun _ => .ok 10, rootFontSize := fun _ => .ok 16, parentFontSize := none,
+    parentFontWeight := none, exRatio := 1 / 2, chRatio := 1 / 2, get := fun _ => .error (.keyError "k"),
+    specified := fun _ => .error (.keyError "k"), isRoot := true, pseudo := false }
+
+-- non-vacuity: `border-spacing: 1em 2rem`, `border-image-width: 2em 3 auto 10%`, a track breadth in pt
+example :
+    (lengthTuple exEnv (.tup [.dim 1 "em", .dim 2 "rem"])).toOption = some (.tup [.num 10, .num 32]) ∧
+    (borderImageWidth exEnv (.tup [.dim 2 "em", .dim 3 "none", .kw "auto", .dim 10 "%"])).toOption
+      = some (.tup [.dim 20 "px", .num 3, .kw "auto", .dim 10 "%"]) ∧
+    absoluteItems (.tup [.dim 20 "px", .num 3, .kw "auto", .dim 10 "%"]) = true ∧
+    absoluteItems (.tup [.dim 2 "em"]) = false ∧
+    (computeTrackBreadth exEnv (.dim 3 "pt")).toOption = some (some (.dim 4 "px")) := by
+  decide +kernel
+
 end Wp.C06
